@@ -43,7 +43,7 @@ S = Suite(
          "file against dictionary",
     bound="random and hand-picked configurations over closures MOST/MOSTM/CONSTANT, "
           "single/double/default precision, footprint/dispersion, analytic (CONSTANT), "
-          "default/None/explicit halo and modes, output_levels / full_output / default level, "
+          "default/None/explicit (incl. an explicit 0) halo and modes, output_levels / full_output / default level, "
           "ustar / z0 / both, scalar and list forcing, 1-3 towers (different heights, lat/lon, "
           "with and without reference, reference origins on the equator / Greenwich meridian), "
           "every time index of 1-3 steps, ideal and user flux; sequences of 3-4 configurations "
@@ -274,7 +274,7 @@ def random_config(rng, force=None):
     closure = ch("closure", ["MOST", "MOSTM", "CONSTANT", None])
     analytic = ch("analytic", [False, False, True]) if closure == "CONSTANT" else False
 
-    halo = ch("halo", ["absent", None, 40.0, 30, 55.5])
+    halo = ch("halo", ["absent", None, 40.0, 30, 55.5, 0, 0.0])
     if halo != "absent":
         dom["halo"] = halo
     modes = ch("modes", ["absent", [16, 16], [24, 16], [12, 20], [32, 32]])
@@ -386,6 +386,9 @@ _CORNERS = [
     dict(closure="MOST", ref=True, origin=(0.0, 37.3), n_towers=2, footprint=True),
     dict(closure="MOST", ref=True, origin=(51.4779, 0.0), n_towers=2, footprint=False),
     dict(closure="MOSTM", ref=True, origin=(0, 0), n_towers=1, footprint=True),
+    # an explicit zero halo (plain periodic domain) is not "no halo given"
+    dict(closure="MOST", halo=0, footprint=True, n_towers=1),
+    dict(closure="MOST", halo=0.0, footprint=False, n_towers=2),
 ]
 
 
